@@ -92,6 +92,11 @@ def run(model, rep, tier):
     ftr, trs, dtr, ltr = summarize(model, "trace_res")
     fpl, pls, dpl, lpl = summarize(model, "plane_res")
     pure = purity(model, rep, ftr, rel) & purity(model, rep, fpl, rel)
+    A_ = lambda n: fr(n)
+    tf_ = 1 + A_("tcr") * (A_("temp") - 20)
+    docs = {"trace_res": A_("rho") * (A_("l_mm") / 1000) / ((A_("w1_mm") + A_("w2_mm")) / 2 * A_("t_mm") / 10 ** 6) * tf_,
+            "plane_res": (A_("rho") / (A_("t_mm") / 1000)) * (A_("l") / A_("w")) * tf_}
+    piecewise = {}
     for fname, fn, vals, leaves in (("trace_res", ftr, trs, ltr), ("plane_res", fpl, pls, lpl)):
         if any(v is None for v in vals):
             raise AnalysisError("utils.%s has a path that does not return a number" % fname)
@@ -101,9 +106,42 @@ def run(model, rep, tier):
             if not pure or stray:
                 rep.violation("formula", "utils." + fname, "%s:%d" % (rel, fn.lineno),
                               "%s has %d paths and returns %s on one of them: not a closed form of its arguments" % (fname, len(vals), show(stray[0] if stray else vals[-1])), "not closed form")
-            else:
-                raise AnalysisError("utils.%s is not a single closed-form return" % fname)
-    tr, pl = trs[0], pls[0]
+                continue
+            # a function written as cases: every case must be the documented closed form on the inputs that reach it.  A case guarded by an
+            # equality (temp == 20) is compared after substituting the equality; any other case must be the formula as it stands.
+            from ..guards import literals, show_f, And
+            good = True
+            for lf, v in zip(leaves, vals):
+                if v == docs[fname]:
+                    continue
+                lits = {}
+                for g in lf.guards:
+                    literals(g, True, lits)
+                fixed = {}
+                for key, val in lits.items():
+                    if key[0] == "ZP" and val is True:
+                        t = key[1]
+                        ats = list(t.atoms())
+                        if len(ats) == 1 and t.is_poly():
+                            # a*x + b == 0  ->  x = -b/a
+                            x = ats[0]
+                            b = t.subst({x: RF.const(0)})
+                            a1 = t.subst({x: RF.const(1)}) - b
+                            if a1.is_const() and b.is_const() and a1.const_value() != 0:
+                                fixed[x] = RF.const(-b.const_value() / a1.const_value())
+                    elif key[0] == "Z" and val is True:
+                        fixed[key[1]] = RF.const(0)
+                if fixed and v.subst(fixed) == docs[fname].subst(fixed):
+                    continue
+                good = False
+                rep.violation("formula", "utils." + fname, "%s:%d" % (rel, fn.lineno),
+                              "on the inputs with {%s} %s returns %s, which is not the documented formula there" % (show_f(And(*lf.guards))[:120], fname, show(v)[:160]),
+                              "case differs from the closed form")
+            rep.instance("formula", "utils.%s: every case of the function is the documented closed form" % fname, "%s:%d" % (rel, fn.lineno), good, "%d cases" % len(vals))
+            if good:
+                piecewise[fname] = docs[fname]
+    tr = piecewise.get("trace_res", trs[0])
+    pl = piecewise.get("plane_res", pls[0])
     need_tr = {"w1_mm", "w2_mm", "l_mm", "t_mm", "rho", "temp", "tcr"}
     need_pl = {"w", "l", "t_mm", "rho", "temp", "tcr"}
     if {x.arg for x in ftr.args.kwonlyargs} != need_tr or {x.arg for x in fpl.args.kwonlyargs} != need_pl:
